@@ -139,15 +139,15 @@ class CP1Disk(CP1Object):
 
     def center_inside(self):
         circ_ctr, circ_rad = self.circle_parameters()
-        ipts = self.interior_point()
+        ipts = self.interior_point().projective_coords()
 
-        center_affine = ipts.in_affine_chart(0)
-        int_pt_coords = ipts[center_affine].real_affine_coords()
-        dist_sq = utils.normsq(circ_ctr[center_affine] - int_pt_coords)
+        # test |z - c| < r for z = z1 / z0 without dividing, so that
+        # an interior point at (or, after complement(), numerically
+        # at) infinity needs no special treatment
+        dist = np.abs(ipts[..., 1] - utils.r_to_c(circ_ctr) * ipts[..., 0])
 
         res = np.full(self.shape, False)
-
-        res[center_affine] = dist_sq < circ_rad[center_affine]**2
+        res[...] = dist < circ_rad * np.abs(ipts[..., 0])
 
         return res
 
